@@ -135,6 +135,21 @@ def _wn_general(test, ev):
 def _vector(S_, v, what):
     if isinstance(v, tuple):
         return v
+    u = unfn(v) if v is not None and not is_unknown(v) and not isinstance(v, DictValue) else None
+    if u and u[0] == "idx" and len(u[1]) == 2 and not isinstance(u[1][0], str) and not isinstance(u[1][1], str) and S_.ev.is_array_object(sym_of(u[1][0])):
+        # OBJ[key] of a dictionary the function itself fills: the one value stored under that key (created with it, or stored once)
+        obj = sym_of(u[1][0])
+        ok, key = X.pykey(u[1][1])
+        init = S_.ev.env.get("<init:%s>" % obj)
+        if ok and isinstance(init, DictValue):
+            stored = [init.d[key]] if key in init.d else []
+            for _nm, ix, val, _st in S_.cells(obj):
+                if is_unknown(ix) or isinstance(ix, (tuple, DictValue)):
+                    raise Unsupported(f"{what}: a store into the returned dictionary under an undetermined key")
+                if X.pykey(ix) == (True, key):
+                    stored.append(val)
+            if len(stored) == 1:
+                return _vector(S_, stored[0], what)
     n = sym_of(v) if not is_unknown(v) and not isinstance(v, DictValue) else None
     if n is not None and S_.ev.is_array_object(n):
         # an array filled element by element (here or in a helper that returns it)
@@ -333,11 +348,37 @@ def _returns_pair(ctx, v):
     return bool(own) and all(isinstance(r.value, ast.Tuple) and len(r.value.elts) == 2 and not any(isinstance(e, ast.Starred) for e in r.value.elts) for r in own)
 
 
+_LFILTER_SIG = ("b", "a", "x", "axis", "zi")      # scipy.signal.lfilter(b, a, x, axis=-1, zi=None): three required
+
+
+def _star_arity(node, star, kw):
+    """number of items the one starred argument of an lfilter call must supply for the call to bind at all (every other count is a TypeError before
+    anything is filtered): the required (b, a, x) must be filled by position or keyword, and no parameter may be given twice.  None when the
+    count is not determined (several stars, `**`, more than one count possible)"""
+    if sum(isinstance(a, ast.Starred) for a in node.args) != 1 or any(k.arg is None for k in node.keywords):
+        return None
+    if any(k not in _LFILTER_SIG for k in kw):
+        return None
+    plain = len(node.args) - 1
+    ok = []
+    for n in range(0, len(_LFILTER_SIG) + 1):
+        by_pos = _LFILTER_SIG[:plain + n]
+        if plain + n > len(_LFILTER_SIG) or any(k in by_pos for k in kw):
+            continue
+        if all(r in by_pos or r in kw for r in _LFILTER_SIG[:3]):
+            ok.append(n)
+    return ok[0] if len(ok) == 1 else None
+
+
 def _lfilter_hook(records, ctx=None):
     def hook(node, ev):
         d = dotted(node.func) or ""
         if d.split(".")[-1] != "lfilter":
             return NotImplemented
+        if getattr(ev, "in_template", 0):
+            # inside the generic element of a comprehension (evaluated once, for a placeholder position): a record made here would not be the call of
+            # any iteration the rule looks at
+            return X.Unknown("lfilter inside a comprehension over a sequence that is not enumerable from the source")
         kw = {k.arg: ev.ev(k.value) for k in node.keywords if k.arg is not None}
         pos = []
         for a in node.args:
@@ -345,8 +386,15 @@ def _lfilter_hook(records, ctx=None):
                 v = ev.ev(a.value)
                 if isinstance(v, tuple):
                     pos.extend(v)
-                elif _returns_pair(ctx, v):
-                    pos.extend([F.fn("idx", need(v), F.const(0)), F.fn("idx", need(v), F.const(1))])     # lfilter(*coeffunc(Q, dT, w), x, ...)
+                elif _returns_pair(ctx, v) or (_star_arity(node, a, kw) == 2 and v is not None and not is_unknown(v) and not isinstance(v, DictValue)):
+                    first, second = 0, 1
+                    uv = unfn(need(v))
+                    if uv and uv[0] == "idx" and len(uv[1]) == 2 and not isinstance(uv[1][0], str) and not isinstance(uv[1][1], str):
+                        sl = unfn(uv[1][1])
+                        if sl and sl[0] == "slice" and len(sl[1]) == 3 and sym_of(sl[1][0]) == "None" and sym_of(sl[1][1]) == "None" \
+                                and not isinstance(sl[1][2], str) and sl[1][2].equals(-1):
+                            v, first, second = uv[1][0], 1, 0       # a pair read backwards: (*pair[::-1]) supplies pair[1], pair[0]
+                    pos.extend([F.fn("idx", need(v), F.const(first)), F.fn("idx", need(v), F.const(second))])     # lfilter(*coeffunc(Q, dT, w), x, ...)
                 else:
                     pos.append(X.Unknown("unpacking of a value whose length the evaluator does not know"))
                     break
@@ -640,7 +688,11 @@ def _parallel_setup(ctx, S_):
         bound.update(ent[3])
     if wname is None or wname not in m.funcs:
         raise Unsupported("parallel path: the mapped worker is not a module-level function")
-    kws = pool[0][2]
+    # multiprocessing.Pool(processes=None, initializer=None, initargs=(), maxtasksperchild=None, context=None): positional or keyword
+    kws = dict(zip(("processes", "initializer", "initargs", "maxtasksperchild", "context"), pool[0][1]))
+    if any(k in kws for k in pool[0][2]):
+        raise Unsupported("parallel path: Pool(...) binds a parameter twice")
+    kws.update(pool[0][2])
     init, initargs = kws.get("initializer"), kws.get("initargs")
     iname = sym_of(init) if init is not None and not is_unknown(init) and not isinstance(init, (tuple, DictValue)) else None
     if iname is None or iname not in m.funcs or not isinstance(initargs, tuple):
@@ -680,6 +732,8 @@ def _task_argument(S_):
         return v
 
     def element(v):
+        if isinstance(v, X.LazySeq):
+            return value(v.element(k))            # ((j, args) for j in range(LF)): the generic element
         if isinstance(v, tuple) or v is None or is_unknown(v) or isinstance(v, DictValue):
             raise Unsupported("iterable of the pool's map")
         u = unfn(v)
@@ -694,7 +748,11 @@ def _task_argument(S_):
         if name.startswith("call:") and last == "repeat" and args:
             return value(args[0])
         if name.startswith("call:") and last == "enumerate" and len(args) == 1:
-            return X.PyTuple((k, F.fn("idx", args[0], k)))
+            # enumerate(X): (k, element k of X) - element k of repeat(v, n), zip(...), range(n) is decoded as above; of anything else it stays X[k]
+            try:
+                return X.PyTuple((k, element(args[0])))
+            except Unsupported:
+                return X.PyTuple((k, F.fn("idx", args[0], k)))
         raise Unsupported("iterable of the pool's map")
     try:
         return element(disp[0][1][1])
@@ -720,6 +778,11 @@ def _stype_fixed(st):
                 return (st in [str_of(z) for z in b]) == isinstance(op, ast.In)
         return None
     return fixed
+
+
+def _srs_params(ctx):
+    a = ctx.src.func(SRS, "srs").args
+    return [x.arg for x in a.posonlyargs + a.args + a.kwonlyargs]
 
 
 def r3_dc_gain(ctx):
@@ -794,6 +857,14 @@ def r3_dc_gain(ctx):
                     else:
                         W = Sem3(ctx, wfn, SRS, cond=_stype_fixed(st), module_state=glob, hooks=(_lfilter_hook(recs, ctx),), exclude=_opaque_helpers(ctx), env=env)
                     _check_addback(ctx, st, wfn.name, W, recs, wfn)
+                    # the sample step the worker computes its coefficients for, where the evaluation expresses it in what srs() itself holds (the task
+                    # argument was decoded): in this regime nothing resamples the signal, so it is 1 / sr of the caller
+                    main = _main_filter(recs)
+                    cc = _coef_call(main[0]) if len(main) == 1 else None
+                    if cc and not cc.get("swapped") and not X.fn_names(cc["dT"]) and X.sym_names(cc["dT"]) <= set(_srs_params(ctx)) - {"freq", "sig"}:
+                        ok = (cc["dT"] * F.sym("sr")).equals(1)
+                        ctx.check(ok, f"{st}: {wfn.name} computes the filter coefficients for the sample step 1/sr of the signal srs() hands to the pool",
+                                  main[0]["node"], None if ok else {"dT": repr(cc["dT"])}, key=f"C03-R3|{st}|{wfn.name}|dT")
             except Unsupported as e:
                 ctx.error(f"{st}: add-back in the worker (getresp={gr})", srsfn, str(e))
 
